@@ -473,7 +473,11 @@ def check_c19(res, tier, rng):
     for s in strings[:3] + strings[-3:]:
         res.add_sample(repr(s)[:200])
     corr = diff_all(lines, impl, model) if 'model' not in broken else []
-    finish_verdict(res, broken, corr, 'LFE front-end')
+    inv = config_inventory_check()
+    res.suite_stats['config_inventory'] = inv['summary']
+    if inv['diff']:
+        corr.append({'case': 'build-configuration inventory of /repo (cfg predicates of the front-end copies, the manifests that decide what minimal_lexical means for them) differs from the expected one', 'diff': inv['diff'][:20]})
+    finish_verdict(res, broken, corr, 'LFE front-end + build-configuration inventory')
 
 
 # ====================================================================== C08
